@@ -151,7 +151,8 @@ def write_evidence(prop, tier, seed, b, wall, new_violations, known_hits, unshru
         "steps_executed": b.steps,
         "runs_per_hour": int(b.runs / hours),
         "steps_per_hour": int(b.steps / hours),
-        "seeded_runs": b.runs - b.exhaustive_runs,
+        "seeded_runs": b.runs - b.exhaustive_runs - b.derived_runs,
+        "fault_sweep_runs_derived_from_seeds": b.derived_runs,
         "exhaustive_short_history_runs": b.exhaustive_runs,
         "exhaustive_info": ex_info,
         "run_seed_first": b.first_seed,
